@@ -65,6 +65,11 @@ func (s *setSubj[T]) Algebra(otherS Subject, op Op, o *Oracle) bool {
 	sort.Strings(want)
 	obsA, obsB := s.ObsJSON(), other.ObsJSON()
 	res := setAlgebra[T](recv.s, arg.s, op.N)
+	// the same call once more: two results of one call are two sets (this one is left alone until the end)
+	res2 := setAlgebra[T](recv.s, arg.s, op.N)
+	// how the sets are mutated in the independence phases below: 0, 4 plain Add/Remove; 1 Clear first; 2 a load that
+	// fails first; 3 a load that succeeds first
+	mut := derive(op.ID, 50, 5)
 	got := sortedStrings(mapS(res.Values(), s.class))
 	if !slices.Equal(got, want) {
 		o.Fail("C13", "members", "%s of %s and %s: result %v, want %v", op.N, recv.canon(recv.m), arg.canon(arg.m), got, want)
@@ -168,6 +173,15 @@ func (s *setSubj[T]) Algebra(otherS Subject, op Op, o *Oracle) bool {
 	}
 	// independence 1: mutate the result
 	x, y := s.d.At(derive(op.ID, 1, len(s.d.Tab))), s.d.At(derive(op.ID, 2, len(s.d.Tab)))
+	switch mut {
+	case 1:
+		res.Clear()
+	case 2:
+		res.(jsonIO).FromJSON([]byte("[1,"))
+		res.(jsonIO).FromJSON([]byte("{}"))
+	case 3:
+		res.(jsonIO).FromJSON([]byte("[]"))
+	}
 	res.Add(x, y)
 	ascending("after Add")
 	if !res.Contains(x, y) {
@@ -189,6 +203,17 @@ func (s *setSubj[T]) Algebra(otherS Subject, op Op, o *Oracle) bool {
 			otherOne = s
 		}
 		keep := otherOne.ObsJSON()
+		switch mut {
+		case 1:
+			t.Step(Op{ID: op.ID, N: "Clear"}, o)
+		case 2:
+			t.IO().FromJSON([]byte("[1,"))
+			t.IO().FromJSON([]byte("{}"))
+		case 3:
+			if s.cfg.Elem != "float" {
+				t.IO().FromJSON(t.EncodeModel()) // (the same members: the model stands)
+			}
+		}
 		t.Step(Op{ID: op.ID, N: "Add", A: []int{derive(op.ID, 4+i, len(s.d.Tab)), derive(op.ID, 6+i, len(s.d.Tab))}}, o)
 		if len(t.m) > 0 {
 			t.Step(Op{ID: op.ID, N: "Remove", A: []int{tabIndex(s.d, t.m[derive(op.ID, 8+i, len(t.m))])}}, o)
@@ -202,6 +227,25 @@ func (s *setSubj[T]) Algebra(otherS Subject, op Op, o *Oracle) bool {
 			o.Fail("C13", "operands-share-state", "mutating one operand after %s changed the other: %s -> %s", op.N, keep, k2)
 			return false
 		}
+	}
+	// the second result of the same call was never touched: it still holds what the call returned, and it is a set of
+	// its own (emptying it reaches neither operand nor the first result)
+	o.cur = op
+	if r2 := sortedStrings(mapS(res2.Values(), s.class)); !slices.Equal(r2, want) {
+		o.Fail("C13", "result-shares-state", "%s was called twice; the first result and both operands were then mutated and the second, untouched result changed: %v, was %v", op.N, r2, want)
+		return false
+	}
+	obsA, obsB = s.ObsJSON(), other.ObsJSON()
+	resObs = recv.canon(res.Values())
+	res2.Clear()
+	res2.Add(x)
+	if a2, b2 := s.ObsJSON(), other.ObsJSON(); a2 != obsA || b2 != obsB {
+		o.Fail("C13", "result-shares-state", "%s was called twice; emptying the second result changed an operand:\n a before %s\n a after  %s\n b before %s\n b after  %s", op.N, obsA, a2, obsB, b2)
+		return false
+	}
+	if r2 := recv.canon(res.Values()); r2 != resObs {
+		o.Fail("C13", "result-shares-state", "%s was called twice; emptying the second result changed the first: %s -> %s", op.N, resObs, r2)
+		return false
 	}
 	return len(ca) > 0 && len(cb) > 0
 }
